@@ -12,7 +12,6 @@
 #[verifier::external_body] pub struct Config { _opaque: () }
 #[verifier::external_body] pub struct Engine { _opaque: () }
 #[verifier::external_body] pub struct LocalExceptions { _opaque: () }
-#[verifier::external_body] pub struct RunFailed { _opaque: () }
 #[verifier::external_body] pub struct ValidationReport { _opaque: () }
 #[verifier::external_body] pub struct Metrics { _opaque: () }
 #[verifier::external_body] pub struct Serial { _opaque: () }
@@ -118,11 +117,6 @@ impl PayloadHistory {
 impl Duration {
     #[verifier::external_body] pub fn as_secs(&self) -> u64 { unimplemented!() }
 }
-impl RunFailed {
-    #[verifier::external_body] pub fn should_retry(self) -> bool { unimplemented!() }
-    #[verifier::external_body] pub fn is_fatal(self) -> bool { unimplemented!() }
-}
-
 impl NotifySender {
     // number of notifications sent so far
     pub uninterp spec fn sent(&self) -> nat;
